@@ -994,7 +994,9 @@ class TextXMetaMetaModel:
         Instantiates textX grammar model from the given file.  Used to
         programmatically inspect textX grammar.
         """
-        return self.metamodel.model_from_file(file_name, debug=debug, **kwargs)
+        return self.metamodel.model_from_file(
+            file_name, encoding=encoding, debug=debug, **kwargs
+        )
 
 
 # Register built-in textX language. See pyproject.toml entry-points
